@@ -28,6 +28,32 @@ def common_type_matches_c11(sa: bool, wa: int, sb: bool, wb: int) -> bool:
     return (ra.signed, ra.bit_width) == want and (rb.signed, rb.bit_width) == want and ra == rb
 
 
+def common_type_of_types_modified_after_construction(sa: bool, wa: int, sb: bool, wb: int, fa: bool, fb: bool, xa: bool, xb: bool, sign_last: bool) -> bool:
+    """
+    pre: 1 <= wa <= 2048 and 1 <= wb <= 2048
+    post: __return__
+    """
+    # the transformer builds types and THEN sets attributes (`unsigned int`: t.signed = False; folded `-<unsigned literal>`:
+    # t.signed = True; widths of narrowed destinations): the result depends on the attribute values at call time only
+    a = ValueType(fa, 32 if xa else wa)
+    b = ValueType(fb, 32 if xb else wb)
+    if sign_last:
+        a.bit_width = wa
+        b.bit_width = wb
+        a.signed = sa
+        b.signed = sb
+    else:
+        a.signed = sa
+        b.signed = sb
+        a.bit_width = wa
+        b.bit_width = wb
+    ra, rb = c11_cast(a, b)
+    want = _c11(sa, wa, sb, wb)
+    pa = promoted_type(a)
+    return (ra.signed, ra.bit_width) == want and (rb.signed, rb.bit_width) == want and \
+        (pa.signed, pa.bit_width) == ((True, 32) if wa < 32 else (sa, wa))
+
+
 def common_type_symmetric(sa: bool, wa: int, sb: bool, wb: int) -> bool:
     """
     pre: 1 <= wa <= 2048 and 1 <= wb <= 2048
